@@ -34,10 +34,10 @@ CORPUS_OPS = [
     # (short data, float32 scale_factor 2, float64 add_offset exactly 0: float64)
     {"vars": [{"name": "a", "shape": [3], "flat": [4, -5, 6], "dtype": "i2", "pack": pk(scale=["f4", 2], offset=["f8", 0])}],
      "heap": ["a"], "ops": _EQ_OWN_COPY},
-    # (only add_offset = 0.0: the data are cast to the type of the add_offset)
+    # (only add_offset = 0.0: no arithmetic, the type the arithmetic would have given)
     {"vars": [{"name": "a", "shape": [3], "flat": [4, None, 6], "dtype": "i2", "pack": pk(offset=["f8", 0])}],
      "heap": ["a"], "ops": _EQ_OWN_COPY},
-    # (scale_factor exactly 1 and add_offset exactly 0: cast to the type of the scale_factor)
+    # (scale_factor exactly 1 AND add_offset exactly 0: cast to the type of the scale_factor alone)
     {"vars": [{"name": "a", "shape": [3], "flat": [4, -5, 6], "dtype": "i2", "pack": pk(scale=["f4", 1], offset=["f8", 0])}],
      "heap": ["a"], "ops": _EQ_OWN_COPY},
     {"vars": [{"name": "a", "shape": [3], "flat": [4, 5, 6], "dtype": "i4", "pack": pk(scale=["f4", 1])}],
@@ -256,52 +256,83 @@ def oracle_step(heap, op):
     raise ValueError(op)
 
 
-def np_unpack(v):
-    """Eager numpy oracle for a stored variable: (unpacked flat values, data type tag), by the
-    netCDF rule written directly in numpy (_Unsigned: reinterpret; unpacked = stored * scale_factor
-    + add_offset; a scale of one with an offset of zero only casts to the type of the attribute).
-    None when a value would not be exact (then the variable is not used)."""
-    dt = np.dtype(v.get("dtype", "i8"))
+def is_plain(v):
     p = v.get("pack") or {}
-    raw = np.array([0 if x is None else x for x in v["flat"]], dtype=dt)
-    if p.get("unsigned") and dt.kind == "i":
-        raw = raw.view("u%d" % dt.itemsize)
-    sf = np.array(p["scale"][1], dtype=p["scale"][0])[()] if p.get("scale") else None
-    ao = np.array(p["offset"][1], dtype=p["offset"][0])[()] if p.get("offset") else None
-    with np.errstate(all="ignore"):
-        if sf is not None and ao is not None:
-            out = (raw * sf + ao) if (ao != 0 or sf != 1) else raw.astype(sf.dtype)
-        elif sf is not None:
-            out = (raw * sf) if sf != 1 else raw.astype(sf.dtype)
-        elif ao is not None:
-            out = (raw + ao) if ao != 0 else raw.astype(ao.dtype)
-        else:
-            out = raw
-    tag = out.dtype.str[1:]
-    if tag not in CODE:
-        return None
-    lim = {"f4": 2 ** 24, "f8": 2 ** 53}.get(tag)
-    flat = []
-    for x, y in zip(v["flat"], out.tolist()):
-        if x is None:
-            flat.append(None)
-            continue
-        if not isinstance(y, int) and not float(y).is_integer():
-            return None
-        if abs(y) >= (lim or 2 ** 62):
-            return None
-        flat.append(int(y))
-    return flat, tag
+    return not (p.get("unsigned") or p.get("scale") or p.get("offset"))
 
 
-def typed(v):
-    """Fill in what eager access sees (exp_flat, exp_dtype) for a variable description."""
-    v.setdefault("dtype", "i8")
-    r = np_unpack(v)
-    if r is None:
-        return None
-    v["exp_flat"], v["exp_dtype"] = r
-    return v
+def plain_fallback(v):
+    """A plain int64 variable of the same shape (stands in for a variable whose eager reference is not exact)."""
+    n = int(np.prod(v["shape"])) if v["shape"] else 1
+    w = {"name": v["name"], "shape": v["shape"], "flat": [(5 * k) % 23 - 7 for k in range(n)], "dtype": "i8", "pack": None}
+    if v.get("group"):
+        w["group"] = v["group"]
+    w["exp_flat"], w["exp_dtype"] = list(w["flat"]), "i8"
+    return w
+
+
+def usable(flat, raw, tag):
+    """Integral values, exact in their type and inside the int64 range the numpy oracle of the histories uses."""
+    if tag not in CODE or len(flat) != len(raw):
+        return False
+    lim = {"f4": 2 ** 24, "f8": 2 ** 53}.get(tag, 2 ** 62)
+    return all(isinstance(y, int) and abs(y) < lim for y in flat)
+
+
+def resolve_vars(var_lists):
+    """Fill in what eager access sees (exp_flat, exp_dtype) for every variable of every file, in place.
+    For a variable without packing attributes that is what is stored.  For a packed or unsigned variable
+    the reference is obtained from the tree under test: netcdf_indexer applied to the whole array in
+    memory (worker mode "unpack") - NOT from a packing rule written down here: which type and values
+    unpacking gives is C07's subject, C12's is that lazy access gives the same as eager access.
+    Returns the number of variables replaced because their reference was not exact."""
+    todo = []
+    for vs in var_lists:
+        for v in vs:
+            if "twin_values_of" in v or "twin_of" in v:
+                continue
+            v.setdefault("dtype", "i8")
+            v.setdefault("pack", None)
+            if is_plain(v):
+                v["exp_flat"], v["exp_dtype"] = list(v["flat"]), v["dtype"]
+            else:
+                todo.append(v)
+    replaced = 0
+    if todo:
+        rc, out, err = lib.run_worker("drive/c12.py", {"mode": "unpack", "vars": [
+            {"dtype": v["dtype"], "pack": v["pack"], "shape": v["shape"], "flat": v["flat"]} for v in todo]})
+        rows = {r["i"]: r for r in out if isinstance(r, dict) and "i" in r}
+        if rc != 0 or len(rows) != len(todo):
+            raise RuntimeError("C12 unpack reference worker failed: rc=%s %s" % (rc, err[-400:]))
+        for k, v in enumerate(todo):
+            r = rows[k]
+            if "err" in r or not usable(r["flat"], v["flat"], r["dtype"]):
+                v["__bad"] = True
+                continue
+            v["exp_flat"] = [None if x is None else y for x, y in zip(v["flat"], r["flat"])]
+            v["exp_dtype"] = r["dtype"]
+    for vs in var_lists:
+        for k, v in enumerate(vs):
+            if v.get("__bad"):
+                vs[k] = plain_fallback(v)
+                replaced += 1
+        for k, v in enumerate(vs):
+            if "twin_of" in v:
+                src = vs[v.pop("twin_of")]
+                for key in ("shape", "flat", "dtype", "pack", "exp_flat", "exp_dtype"):
+                    v[key] = list(src[key]) if isinstance(src[key], list) else (dict(src[key]) if isinstance(src[key], dict) else src[key])
+            elif "twin_values_of" in v:
+                # the same VALUES with another data type: equal values, different types, so equals must say
+                # False before and after either is brought into memory
+                src = vs[v.pop("twin_values_of")]
+                ok = src["exp_dtype"] != "f8" and all(x is None or 0 <= x < 100 for x in src["exp_flat"])
+                if ok:
+                    v.update({"shape": src["shape"], "flat": list(src["exp_flat"]), "dtype": "f8", "pack": None,
+                              "exp_flat": list(src["exp_flat"]), "exp_dtype": "f8"})
+                else:
+                    v["__drop"] = True
+        vs[:] = [v for v in vs if not v.get("__drop")]
+    return replaced
 
 
 def rand_attr(rng, trivial_value, values):
@@ -317,37 +348,38 @@ def rand_attr(rng, trivial_value, values):
 def rand_typed_var(rng, name, shape):
     """A variable of a random numeric type with random packing attributes (every combination of
     types; scale_factor one / not one; add_offset zero / not zero; only one of them; _Unsigned)."""
-    while True:
-        dt = rng.choice(["i1", "i2", "i2", "i4", "i4", "i8", "u1", "u2", "u4", "u8", "f4", "f8"])
-        r = rng.random()
-        unsigned = dt in ("i1", "i2", "i4") and rng.random() < 0.25
-        if r < 0.12:
-            pack = pk(unsigned=unsigned)
-        else:
-            which = rng.choice(["both", "both", "both", "scale", "offset"])
-            pack = pk(unsigned=unsigned,
-                      scale=rand_attr(rng, 1, [2, 3]) if which != "offset" else None,
-                      offset=rand_attr(rng, 0, [5, 7, -4]) if which != "scale" else None)
-        n = int(np.prod(shape)) if shape else 1
-        lo = 0 if (dt[0] == "u" or (unsigned and dt == "i4")) else -20
-        flat = [lo + (7 * k + rng.randint(0, 3)) % 41 for k in range(n)]
-        if shape and rng.random() < 0.4:
-            for j in range(n):
-                if rng.random() < 0.2:
-                    flat[j] = None
-        v = typed({"name": name, "shape": shape, "flat": flat, "dtype": dt, "pack": pack})
-        if v is not None:
-            return v
+    dt = rng.choice(["i1", "i2", "i2", "i4", "i4", "i8", "u1", "u2", "u4", "u8", "f4", "f8"])
+    r = rng.random()
+    unsigned = dt in ("i1", "i2", "i4") and rng.random() < 0.25
+    if r < 0.12:
+        pack = pk(unsigned=unsigned)
+    else:
+        which = rng.choice(["both", "both", "both", "scale", "offset"])
+        pack = pk(unsigned=unsigned,
+                  scale=rand_attr(rng, 1, [2, 3]) if which != "offset" else None,
+                  offset=rand_attr(rng, 0, [5, 7, -4]) if which != "scale" else None)
+    n = int(np.prod(shape)) if shape else 1
+    # (no negative stored value where a conversion to an unsigned type could come in: 2**64 - 3 is not a
+    #  float64, 2**32 - 3 not a float32)
+    utyped = any(a and a[0][0] == "u" for a in (pack["scale"], pack["offset"]))
+    lo = 0 if (dt[0] == "u" or utyped or (unsigned and dt == "i4")) else -20
+    flat = [lo + (7 * k + rng.randint(0, 3)) % 41 for k in range(n)]
+    if shape and rng.random() < 0.4:
+        for j in range(n):
+            if rng.random() < 0.2:
+                flat[j] = None
+    return {"name": name, "shape": shape, "flat": flat, "dtype": dt, "pack": pack}
 
 
 def rand_file(rng):
+    """The variables of one file; exp_flat / exp_dtype are filled in afterwards by resolve_vars."""
     nv = rng.randint(2, 4)
     vars_ = []
     for k in range(nv):
         shape = C03.rand_shape(rng, max_rank=3)
         if rng.random() < 0.45:
             flat = C03.rand_flat(rng, shape, bool(shape) and rng.random() < 0.4)
-            v = typed({"name": "v%d" % k, "shape": shape, "flat": flat})
+            v = {"name": "v%d" % k, "shape": shape, "flat": flat, "dtype": "i8", "pack": None}
         else:
             v = rand_typed_var(rng, "v%d" % k, shape)
         if rng.random() < 0.2:
@@ -355,17 +387,9 @@ def rand_file(rng):
         vars_.append(v)
     if rng.random() < 0.5:
         # a twin with the same values (equals -> True needs two different variables)
-        src = rng.choice(vars_)
-        tw = {k: (list(x) if isinstance(x, list) else x) for k, x in src.items() if k != "group"}
-        tw["name"] = "tw"
-        vars_.append(tw)
+        vars_.append({"name": "tw", "twin_of": rng.randrange(len(vars_))})
     elif rng.random() < 0.5:
-        # ... or a variable that unpacks to the same values with ANOTHER data type: equal values,
-        # different types, so equals must say False before and after either is brought into memory
-        src = rng.choice(vars_)
-        if all(x is None or -100 < x < 100 for x in src["exp_flat"]) and src["exp_dtype"] != "f8" \
-                and all(x is None or x >= 0 for x in src["exp_flat"]):
-            vars_.append(typed({"name": "tw", "shape": src["shape"], "flat": list(src["exp_flat"]), "dtype": "f8"}))
+        vars_.append({"name": "tw", "twin_values_of": rng.randrange(len(vars_))})
     return {"vars": vars_}
 
 
@@ -544,9 +568,10 @@ def rand_packing_attrs(rng, stored):
     atypes = ["f4", "f8", "f8", "i2", "i4"]
     unsigned = stored in ("i1", "i2", "i4") and rng.random() < 0.3
     if unsigned:
-        # (a scale of one / offset of zero casts the unsigned view to the attribute's type, which then has to hold it:
-        #  netcdf_indexer would wrap 65531 back to -5 for an int16 attribute where netCDF4-python keeps uint16 - a
-        #  difference in unpacking, C07's subject, identical lazily and eagerly)
+        # (a scale of one WITH an offset of zero casts the unsigned view to the scale_factor's type, which then has
+        #  to hold it: netcdf_indexer wraps 65531 back to -5 for an int16 scale_factor where netCDF4-python keeps
+        #  uint16 - a difference in unpacking, C07's subject, identical lazily and eagerly; since repository commit
+        #  0554e88 a single attribute at its identity value no longer does this)
         atypes = ["f8"] if stored == "i4" else ["f4", "f8", "f8", "i4"]
     if which in ("both", "scale"):
         t = rng.choice(atypes)
@@ -964,12 +989,17 @@ def run(chk, model_ok):
     nfiles = 300 if T else 36
     per_file = 40 if T else 26
     files = [rand_file(rng) for _ in range(nfiles)]
-    cases = []
     for c in CORPUS_OPS:
-        files.append({"vars": [typed(dict(v)) for v in c["vars"]]})
+        files.append({"vars": [dict(v) for v in c["vars"]]})
+    # the eager reference of every packed variable (netcdf_indexer on the whole array in memory)
+    stats["inexact_variables_replaced"] = resolve_vars([f_["vars"] for f_ in files])
+    mark("eager_reference")
+    cases = []
+    for k_, c in enumerate(CORPUS_OPS):
+        cfile = nfiles + k_
         for be in BACKENDS:
             heap = [({"missing": True, "shape": [int(h[1:])]} if h.startswith("?") else {"var": h}) for h in c["heap"]]
-            cases.append({"file": len(files) - 1, "backend": be, "heap": heap, "ops": c["ops"], "fam": "corpus"})
+            cases.append({"file": cfile, "backend": be, "heap": heap, "ops": c["ops"], "fam": "corpus"})
     for k in range(nfiles):
         for _ in range(per_file):
             heap, ops = rand_history(rng, files[k], rng.randint(3, 10))
@@ -1274,6 +1304,7 @@ def run(chk, model_ok):
         "stored_types_of_history_variables": stats["stored_types"], "packing_of_history_variables": stats["pack_kinds"],
         "data_objects_checked_for_dtype_and_equality_in_memory": stats["dtype_checks"],
         "of_which_packed_or_unsigned": stats["packed_read_vars"],
+        "history_variables_replaced_because_reference_inexact": stats.get("inexact_variables_replaced", 0),
         "phase_seconds": phase,
         "exhaustive": False,
     })
@@ -1306,7 +1337,8 @@ def replay(chk, path):
             print("not a replayable history (dataset-level finding):", str(c)[:300])
             bad += 1
             continue
-        spec = {"vars": [typed(dict(v)) for v in c["vars"]]}
+        spec = {"vars": [{k: x for k, x in v.items() if not k.startswith("exp_")} for v in c["vars"]]}
+        resolve_vars([spec["vars"]])
         case = {"i": 0, "file": 0, "backend": c.get("backend"), "heap": c["heap"], "ops": c["ops"]}
         rc, out, err = lib.run_worker("drive/c12.py", {"mode": "ops", "scratch": chk.scratch, "files": {"0": spec},
                                                         "cases": [case]})
